@@ -211,6 +211,32 @@ func checkC14(rd *RunData) []Violation {
 		for _, s2 := range sets[r.Op.Key] {
 			if s2.Inv > w.r.Ret && s2.Ret < r.Inv {
 				src := source(r, s2.Inv) // promoted from the secondary tier after the newer Set began
+				// why was the newer value not there any more?
+				why := "newer-value-left-otherwise"
+				for _, l := range rd.Listener {
+					if l.Key == r.Op.Key && l.Val == s2.Val && l.Seq < r.Ret {
+						switch {
+						case l.Reason == 2:
+							why = "newer-value-expired"
+						case l.Reason == 1 && rd.Sc.Cache.Prob < 1:
+							why = "newer-value-dropped-on-eviction(prob<1)"
+						case l.Reason == 1:
+							why = "newer-value-evicted-without-demotion(prob=1)"
+						}
+					}
+				}
+				if why == "newer-value-left-otherwise" {
+					// replaced by a still newer write, or expired without having been reclaimed yet
+					for _, s3 := range sets[r.Op.Key] {
+						if s3.Inv > s2.Inv && s3.Val != s2.Val && s3.Inv < r.Ret {
+							why = "newer-value-overwritten-by-later-writes"
+						}
+					}
+					if w2, ok := writes[s2.Val]; ok && w2.dplus != 0 && r.RetT >= w2.r.InvT+w2.r.Op.TTL {
+						why = "newer-value-expired"
+					}
+				}
+				src += "," + why
 				vs = append(vs, Violation{"C14/stale-value-served/" + src + "," + fam, fmt.Sprintf("%s by client %d (inv=%d) returned value %d (written by %s, completed at seq %d) although the later %s by client %d (value %d, seq [%d,%d]) had completed before the read began", r.Op, r.Client, r.Inv, r.Val, w.r.Op, w.r.Ret, s2.Op, s2.Client, s2.Val, s2.Inv, s2.Ret)})
 				ruleHit = true
 				break
